@@ -1,0 +1,36 @@
+//go:build verif
+
+package filter
+
+// Bounded stand-in for C14 at the degenerate end of its parameter space: error bound 0 with tube offset 0 satisfies
+// "tube offset at least e" and has a positive threshold, but a tube of width 0 makes Filter divide by zero.
+// Recorded finding on the unchanged tree.
+
+import (
+	"fmt"
+	"math/rand"
+	"testing"
+)
+
+func TestVerifBounded_C14_ZeroOffset(t *testing.T) {
+	rnd := rand.New(rand.NewSource(7))
+	c := verifCase{p: Params{WordSize: 4, MinMatch: 8, MaxError: 0, TubeOffset: 0}}
+	c.target = verifDNA(rnd, 120)
+	c.query = verifDNA(rnd, 120)
+	copy(c.query[40:60], c.target[30:50])
+	func() {
+		defer func() {
+			if r := recover(); r != nil {
+				fmt.Printf("FINDING id=zero-tube-offset cases=1 example=%q\n", fmt.Sprintf("k=4 n=8 e=0 tubeOffset=0, target and query of 120 letters with a planted exact match of 20: Filter panics: %v", r))
+			}
+		}()
+		_, missed, err := verifMisses(c)
+		if err != nil {
+			return // rejecting the parameters is fine
+		}
+		if len(missed) > 0 {
+			t.Fatalf("tube offset 0: matches not covered: %v", missed)
+		}
+	}()
+	fmt.Printf("BOUNDED name=C14.zero-offset cases=1 nontrivial=1 exhaustive=false domain=%q\n", "one pair of 120-letter sequences with a planted exact match, k=4 n=8 e=0 tube offset 0")
+}
